@@ -108,6 +108,34 @@ def isDelegation (t : Tree) (f : String) : Bool :=
   | .node _ [_, _, .node "list" [.node _ [.node "Call" (.node "Attribute" [.node "Name" [.ident "self"], .ident g] :: _)]], _] => g == f
   | _ => false
 
+/-! ## side condition of the semantic assumption: every call of a `*_async` name is awaited on the spot
+
+`erase` drops `await`, so a *missing* `await` in front of `x.evaluate_async(ctx)` is invisible to it; but an
+un-awaited coroutine object is not the value its twin returns (it is always truthy), so the hypothesis
+"a paired name means the same as its twin" only makes sense for awaited calls. `unawaited t` finds a call whose
+callee name ends in `_async` and that is not the direct operand of an `await`. -/
+def calleeName : Tree → Option String
+  | .node "Attribute" [_, .ident s] => some s
+  | .node "Name" [.ident s] => some s
+  | _ => none
+
+def isAsyncCallee (f : Tree) : Bool :=
+  match calleeName f with
+  | some s => s.endsWith "_async"
+  | none => false
+
+mutual
+def unawaited : Tree → Bool
+  | .await (.node "Call" (f :: rest)) => unawaited f || unawaitedList rest
+  | .await t => unawaited t
+  | .ident _ => false
+  | .node "Call" (f :: rest) => isAsyncCallee f || unawaited f || unawaitedList rest
+  | .node _ ts => unawaitedList ts
+def unawaitedList : List Tree → Bool
+  | [] => false
+  | t :: ts => unawaited t || unawaitedList ts
+end
+
 /-! ## semantics-independent soundness -/
 
 variable {D : Type}
